@@ -82,7 +82,7 @@ CATALOGUE = [
     ('encode', 8), ('encode_top', 4), ('dumps', 2), ('format', 3), ('format_triples', 2), ('interpret', 4),
     ('configure', 5), ('configure_top', 2), ('reconfigure', 6), ('reify_edges', 4), ('dereify_edges', 4),
     ('reify_attributes', 4), ('indicate_branches', 3), ('canonicalize_roles', 2), ('queries', 4), ('or', 4), ('sub', 4),
-    ('errors', 3), ('errors_union', 3), ('role_algebra', 2), ('node_contexts', 3), ('appears_inverted', 3), ('alignments', 2),
+    ('errors', 3), ('errors_union', 3), ('errors_islands', 2), ('role_algebra', 2), ('node_contexts', 3), ('appears_inverted', 3), ('alignments', 2),
     ('tree_nodes_walk', 2), ('graph_eq', 1),
     # derive, then mutate the derived object in place
     ('or_then_ior', 3), ('sub_then_isub', 3), ('copy_then_top', 2), ('configure_then_rearrange', 3),
@@ -304,6 +304,11 @@ def run_op(w, op, local):
     if name == 'errors_union':
         # graphs of different world items rarely share variables: their union is disconnected
         return model.errors(g | w.graphs[y])
+    if name == 'errors_islands':
+        # several unreachable nodes whose names differ only in leading zeros / digits
+        from penman.graph import Graph
+        extra = [(v, ':instance', 'island') for v in ('q0', 'q00', 'q000', 'q1', 'q01', 'k', 'k0')]
+        return model.errors(Graph(list(g.triples) + extra, top=g.top))
     if name == 'role_algebra':
         roles = sorted({tr[1] for tr in g.triples})
         return [[r, model.has_role(r), model.is_role_inverted(r), model.invert_role(r), model.canonicalize_role(r),
